@@ -166,7 +166,8 @@ func paren(p prec, e Expr) string {
 func (b *BadNode) SQL() string {
 	var sql string
 	for _, tok := range b.Tokens {
-		if sql != "" && len(tok.Space) > 0 {
+		if sql != "" && (len(tok.Space) > 0 || len(tok.Comments) > 0) {
+			// Tokens separated only by a comment must not be glued together.
 			sql += " "
 		}
 		sql += tok.Raw
